@@ -118,7 +118,7 @@ def run(chk):
             bad += 1
             local_only = ev.env.get("keep_alive") is False
             chk.violation("C02.framing.server", chain[0], "keep_alive = False" if local_only else "if self._chunked: ... elif self._length_check: ...",
-                          "self._keep_alive = False" if local_only else "a framing choice",
+                          f"self._keep_alive = False [HTTP/{ver[0]}.{ver[1]}, chunked={chunked}]" if local_only else f"a framing choice [HTTP/{ver[0]}.{ver[1]}, chunked={chunked}, length={length}]",
                           f"chunked={chunked} length={length} HTTP/{ver[0]}.{ver[1]} must_be_empty={empty}: the body is delimited by closing the connection, but "
                           + ("only the local `keep_alive` is cleared: `resp.keep_alive` (read by the protocol loop) stays true, so the server keeps the connection open and an HTTP/1.0 client waits for the end of the body until the keep-alive timeout"
                              if local_only else "neither chunking, a length, nor a close is selected"))
